@@ -101,7 +101,6 @@ func (s *state) ProcessDescriptor(desc SegmentationDescriptor) ([]SegmentationDe
 						// we should not be processing this desc.
 						return nil, gots.ErrSCTE35DuplicateDescriptor
 					}
-					descAdded = true
 				}
 			}
 		}
